@@ -242,17 +242,28 @@ def run_sparse(ctx, case):
     ctx.count("class_" + inst["cls"])
 
 
-def make_env(instance, case, rng):
+def make_env(instance, case, rng, shared=None, builder=None):
+    """`shared`: configuration objects the user keeps and hands to every env they construct."""
     from job_shop_lib.dispatching import DispatcherObserverConfig
     from job_shop_lib.reinforcement_learning import (IdleTimeReward, MakespanReward,
                                                      SingleJobShopGraphEnv)
     from .c16 import builders
-    cfgs = [DispatcherObserverConfig(t) for t in case["features"]]
     rw = MakespanReward if case.get("reward", "makespan") == "makespan" else IdleTimeReward
+    if shared is not None and not shared:
+        from job_shop_lib.graphs.graph_updaters import ResidualGraphUpdater
+        shared["features"] = [DispatcherObserverConfig(t) for t in case["features"]]
+        shared["reward"] = DispatcherObserverConfig(rw)
+        shared["updater"] = DispatcherObserverConfig(ResidualGraphUpdater)
+    kw = {}
+    if shared is not None:
+        cfgs, rcfg = shared["features"], shared["reward"]
+        kw["graph_updater_config"] = shared["updater"]
+    else:
+        cfgs, rcfg = [DispatcherObserverConfig(t) for t in case["features"]], DispatcherObserverConfig(rw)
     return SingleJobShopGraphEnv(
-        builders()[case["builder"]](instance), cfgs,
-        reward_function_config=DispatcherObserverConfig(rw),
-        ready_operations_filter=gen.make_filter(case.get("filter")))
+        builders()[builder or case["builder"]](instance), cfgs,
+        reward_function_config=rcfg,
+        ready_operations_filter=gen.make_filter(case.get("filter")), **kw)
 
 
 def env_step_record(env, ret):
@@ -265,7 +276,8 @@ def env_step_record(env, ret):
 def run_env(ctx, case):
     rng = random.Random(case["seed"])
     instance = gen.build(case["instance"])
-    env = make_env(instance, case, rng)
+    shared = {} if case["seed"] % 5 == 2 else None
+    env = make_env(instance, case, rng, shared)
     render_dir = None
     if case["seed"] % 8 == 0 and instance.num_operations <= 14:
         # the environment also renders (GIF) at the end of every episode: each rendering shows
@@ -286,7 +298,29 @@ def run_env(ctx, case):
             render_config={"gif_config": {"gif_path": render_dir + "/episode.gif", "fps": 10}})
         ctx.count("rendering_envs")
     try:
-        _run_env_episodes(ctx, case, rng, instance, env, render_dir)
+        first, actions = _run_env_episodes(ctx, case, rng, instance, env, render_dir)
+        if shared is not None and first is not None and not render_dir:
+            # the user's configuration objects served other environments meanwhile (another graph
+            # encoding of the same instance); an env constructed from them now behaves like the
+            # first one did
+            other = make_env(instance, case, rng, shared,
+                             builder="disjunctive" if case["builder"] != "disjunctive" else "agent_task")
+            other.reset()
+            op9 = other.dispatcher.available_operations()[0]
+            other.step((op9.job_id, op9.machines[0]))
+            fresh = make_env(instance, case, rng, shared)
+            obs, info = fresh.reset()
+            trace = [(_snap.obs_state(obs), _snap.graph_state(fresh.job_shop_graph), state_of(fresh.dispatcher))]
+            for act in actions:
+                ret = fresh.step(act)
+                trace.append((env_step_record(fresh, ret), state_of(fresh.dispatcher)))
+            ctx.count("fresh_envs_from_shared_configuration_objects_compared")
+            if trace != first:
+                k = next(i for i, (x, y) in enumerate(zip(trace, first)) if x != y)
+                ctx.violation("c12_env_from_reused_configuration_differs_from_first",
+                              {"first_divergent_step": k,
+                               "paths": _snap.diff_keys(_to_dict(trace[k]), _to_dict(first[k]))[:10],
+                               "builder": case["builder"], "features": case["features"], "actions": actions})
     finally:
         if render_dir:
             shutil.rmtree(render_dir, ignore_errors=True)
@@ -360,6 +394,7 @@ def _run_env_episodes(ctx, case, rng, instance, env, render_dir):
                 break
     ctx.note_case(case, True, fingerprint=str(hash(
         (gen.fingerprint(case["instance"]), case["builder"], tuple(case["features"]), tuple(actions)))))
+    return first, actions
 
 
 def _to_dict(t):
